@@ -93,6 +93,81 @@ def registry_table():
     return {name: [_pattern_desc(p) for p in pats] for name, (f, pats) in RULES.items()}
 
 
+_MODEL_RULES = None
+
+
+def model_rule_table():
+    """rule name -> pattern elements [("R", id) | ("P", name) | ("D", name)] of the frozen specs/RuleTable.tla."""
+    global _MODEL_RULES
+    if _MODEL_RULES is None:
+        import re as _re
+        src = open(os.path.join(os.path.dirname(os.path.dirname(os.path.abspath(__file__))), "specs", "RuleTable.tla"), encoding="utf8").read()
+        tab = {}
+        for m in _re.finditer(r"^\s*(rule\w+) \|-> <<(.*?)>>,?\s*$", src, _re.M):
+            tab[m.group(1)] = [(k, int(v) if k == "R" else v.strip('"')) for k, v in _re.findall(r'([RPD])\((\d+|"[^"]*")\)', m.group(2))]
+        _MODEL_RULES = tab
+    return _MODEL_RULES
+
+
+_ID_MAP = None
+UNKNOWN_ID = 900      # live pattern identifiers the frozen model has no name for are reported as 900 + id
+
+
+def id_map():
+    """live pattern identifier -> the model's name for that pattern (the identifier RuleTable.tla uses).
+    Identifiers are allocation-order dependent; what a pattern IS is given by the rule(s) that read it, so the mapping goes
+    through (rule name, position in the rule's pattern).  A rule base that was extended or re-ordered is thereby judged with
+    the same model; patterns only rules unknown to the model read are 'outside the model'."""
+    global _ID_MAP
+    if _ID_MAP is None:
+        live = registry_table()
+        model = model_rule_table()
+        mp, clash = {}, set()
+        for rn, pats in live.items():
+            if rn not in model or len(model[rn]) != len(pats):
+                continue
+            for (k1, w1), (k2, w2) in zip(pats, model[rn]):
+                if k1 == "R" and k2 == "R":
+                    if mp.setdefault(w1, w2) != w2:
+                        clash.add(w1)
+        for w in clash:
+            mp.pop(w, None)
+        _ID_MAP = mp
+    return _ID_MAP
+
+
+def mid(live_id):
+    return id_map().get(live_id, UNKNOWN_ID + int(live_id))
+
+
+def live_id(model_id):
+    for k, v in id_map().items():
+        if v == model_id:
+            return k
+    return None
+
+
+def outside_model(o):
+    """Does an observation mention a pattern or a rule the frozen model does not know (rule base extended)?"""
+    rules = model_rule_table()
+
+    def bad(v, key=None):
+        if isinstance(v, dict):
+            if v.get("k") == "R" and isinstance(v.get("id"), int) and v["id"] >= UNKNOWN_ID:
+                return True
+            return any(bad(x, k) for k, x in v.items())
+        if isinstance(v, list):
+            if key == "ids":
+                return any(isinstance(x, int) and x >= UNKNOWN_ID for x in v)
+            if key == "rules":
+                return any(isinstance(x, str) and x.startswith("rule") and x not in rules for x in v)
+            return any(bad(x) for x in v)
+        if key == "rule" and isinstance(v, str) and v.startswith("rule") and v not in rules:
+            return True
+        return False
+    return bad(o)
+
+
 _PAYLOAD_RULES = ["ruleNamedDOW", "ruleNamedMonth", "ruleNamedHour", "ruleEarlyLatePOD", "rulePOD",
                   "ruleDOM1", "ruleMonthOrdinal", "ruleDOM2", "ruleYear", "ruleDDMM", "ruleMMDD",
                   "ruleDDMMYYYY", "ruleHHMMmilitary", "ruleHHMM", "ruleHHOClock", "ruleBeforeTime",
@@ -215,7 +290,7 @@ def tok_json(rm):
         s1 = _unit(m)
     elif rd == "ruleDurationHalf":
         s1 = _unit(m)
-    return {"k": "R", "id": int(rm.id), "n1": n1, "n2": n2, "n3": n3, "s1": s1}
+    return {"k": "R", "id": mid(int(rm.id)), "n1": n1, "n2": n2, "n3": n3, "s1": s1}
 
 
 def span_json(v):
